@@ -37,10 +37,16 @@ FUNCTIONS = {
         'coverage.TestTrace.start', 'coverage.TestTrace.stop', 'runner.Runner.run')]
            + [(RR, TR + '_setUpStdStreams'), (RR, TR + '_restoreStdStreams'), (RR, TR + 'startTest'), (RR, TR + 'stopTest')]
            + EVENTS + [PROTOCOL, RUN_TESTS],      # sys.stdout / sys.stderr: everything the restoration argument uses
-    'C09': [('find_c09', 'find.tests_from_suite'), ('find_c15', 'options.get_options')],
+    'C09': [('find_c09', 'find.tests_from_suite'), ('find_c15', 'options.get_options'),
+            ('select_c03', 'filter.Filter.global_setup')],
     'C11': [('shuffle_c11', 'shuffle.Shuffle.global_setup')],
     'C15': [('find_c15', 'find.remove_stale_bytecode'), ('find_c15', 'options.get_options')],
     'C20': [('digraph_c20', 'digraph.DiGraph.sccs')],
+    'C03': [('find_c09', 'find.tests_from_suite'), ('select_c03', 'find.find_tests'),
+            ('select_c03', 'filter.Filter.global_setup'), ('select_c03', 'listing.Listing.global_setup'),
+            ('select_c03', 'listing.Listing.report'), ('runner_order', 'runner.order_by_bases'),
+            ('runner_order', 'runner.Runner.ordered_layers'), RUN_TESTS, RUNNER_LOOP,
+            ('runner_spawn', 'runner.spawn_layer_in_subprocess'), ('features_c18', 'runner.Runner.run')],
     'C10': [('runner_order', f) for f in ('runner.gather_layers', 'runner.order_by_bases', 'runner.order_by_bases@unitfirst',
                                           'runner.layer_sort_key', 'runner.layer_sort_key._gather',
                                           'runner.Runner.ordered_layers')],
@@ -243,5 +249,23 @@ MANIFEST = {
         'note': COMMON_NOTE + "Assumed: sorted() orders by key and is a function of the multiset when keys are pairwise "
                 "distinct; tuples order lexicographically (() least); distinct layers have distinct names; two registered "
                 "names never denote the same layer object; class UnitTests has no base but object (checked on layer.py).",
+    },
+    'C03': {
+        'text': "Proof, function by function, of the selection chain: tests_from_suite yields exactly FLAT(suite) (the tests "
+                "whose nearest level is eligible and which --test accepts, each with its nearest layer, in order, for suite "
+                "trees of any depth); find_tests places every pair of FLAT(suite_1) ++ ... ++ FLAT(suite_k) exactly once, in "
+                "that order, into the suite registered under the pair's own layer name (fresh suite per name, no empty "
+                "suite; ghost placement log, call-site obligations at suite.addTest); Filter.global_setup keeps exactly the "
+                "layer names the unit switch and the --layer patterns select (in a child: only the resumed layer) and never "
+                "touches the suites; Runner.ordered_layers yields one group per registered name, once each; the run loop "
+                "executes the tests of a suite in order, one call each per --repeat iteration (call-site obligation "
+                "test == suite_item(tests, i) in run_tests), runs every yielded layer unless stopped on purpose; the listing "
+                "iterates the same ordered_layers() and passes each group to the formatter; Listing.global_setup clears "
+                "do_run_tests and Runner.run calls run_tests only under it (no test or layer code under --list-tests); a "
+                "child is started with --resume-layer <name>, the parent's defaults and its original arguments.",
+        'note': COMMON_NOTE + "Not decided: that a child process discovers the same files (OS); that user code does not run a "
+                "test itself; 'exactly one process' rests on Filter's child post (only the resumed layer) plus the run "
+                "loop handing each remaining layer to exactly one spawn (resume_tests: see C06). Assumed: two registered "
+                "names never denote the same layer object; generator consumed as its completed result list.",
     },
 }
